@@ -14,7 +14,16 @@ A *scenario* (the case JSON, self-contained) is
    "src_cls"/"dst_cls": "local"|"base",  "req": [token...], "shallow", "verify", "dix", "six",
    "rounds": [{"fails": [token...], "partial": [token...], "crash": n|null, "reset": bool,
                "delete": [token...], "req": [token...]}]}
-   ("labels": {token: label} - the requested HashInfo of that id carries obj_name=label, as DVC sets it;
+   (further optional keys: "jobs": null|1|2|4 (default 1), "hardlink": bool, "fail_kind": "eio"|"eperm"|"eexist",
+    "dst_unprot": [token...] objects of "dst" left unprotected (0o644), "dst_junk": [[token, name, hex]...] stray
+    files <first 2 chars of token's id>/<name>, "dst_dir_at": [token...] a DIRECTORY at the object's path,
+    "dix_init": {"dirs": [...], "files": [...]} destination index pre-seeded, "plain_dst": true destination on a
+    plain LocalFileSystem (real links, no fault injection, no per-attempt snapshots), "read_only_dst": true,
+    "req_names": {token: hash name} requested HashInfo name other than md5, "oracle_only": reason - the scenario
+    is judged by the oracles only (no correspondence item); round keys "kill_state": ["before"|"after", k] abort
+    around the k-th state.save_many of the destination, "query_fault": true the destination's existence queries
+    raise OSError during status, "raise_in_validate": true the validate_status callback raises;
+    "labels": {token: label} - the requested HashInfo of that id carries obj_name=label, as DVC sets it;
     "dst_rot": {token: hex} - the (local-class) destination initially holds these bytes under the id with
     mode 0o644: an unprotected copy that does not hash to its id, which status() re-hashes and removes;
     "dst_state": true = the destination odb gets a real hash State (sqlite), persisted across the rounds;
@@ -37,6 +46,7 @@ import hashlib
 import itertools
 import json
 import os
+import re
 
 from lib import impl
 from lib.core import VERIF, cbool, cbytes, clist, cpair, vL, vN
@@ -68,6 +78,11 @@ class Recorder:
         self.events = []  # ("put", oid, ok) | ("partial", oid) | ("drop", oid)
         self.snaps = []  # {oid: bytes} after every upload attempt
         self.depth = 0
+        self.kind = "eio"  # error kind of the injected failures: eio | eperm | eexist
+        self.query_fault = False  # existence queries of the destination raise during the status phase
+        self.batch = 0  # dest.add calls so far
+        self.batch_pos = 0  # upload attempts inside the current dest.add call
+        self.positions = []  # (batch, position in batch) per upload attempt
         self.phase = "status"  # -> "upload" once validate_status has run
         self.status_drops = []  # objects status() removed from the destination (unvouched copies)
 
@@ -76,6 +91,8 @@ class Recorder:
         return "".join(parts[-2:])
 
     def attempt(self, oid, ok, partial=False):
+        self.batch_pos += 1
+        self.positions.append((self.batch, self.batch_pos))
         self.events.append(("partial", oid) if partial else ("put", oid, ok))
         self.snaps.append(store_bytes(self.dest))
 
@@ -112,8 +129,10 @@ def faultfs_class():
                             with open(rpath, "wb") as f:
                                 f.write(data[:-1])
                             partial = True
-                    if rec.eperm:
+                    if rec.eperm or rec.kind == "eperm":
                         raise PermissionError(13, "injected upload failure")
+                    if rec.kind == "eexist":
+                        raise FileExistsError(17, "injected upload failure")
                     raise OSError(5, "injected upload failure")
                 super().put_file(lpath, rpath, callback=callback, **kwargs)
             except Exception:
@@ -126,6 +145,31 @@ def faultfs_class():
             if rec.crash is not None and rec.calls >= rec.crash:
                 rec.aborted = True
                 raise Abort
+
+        def _query(self):
+            rec = self.rec
+            if rec is not None and rec.query_fault and rec.phase == "status":
+                raise OSError(5, "injected existence-query failure")
+
+        def exists(self, path, *a, **kw):
+            self._query()
+            return super().exists(path, *a, **kw)
+
+        def isfile(self, path, *a, **kw):
+            self._query()
+            return super().isfile(path, *a, **kw)
+
+        def info(self, path, *a, **kw):
+            self._query()
+            return super().info(path, *a, **kw)
+
+        def find(self, path, *a, **kw):
+            self._query()
+            return super().find(path, *a, **kw)
+
+        def ls(self, path, *a, **kw):
+            self._query()
+            return super().ls(path, *a, **kw)
 
         def _removing(self, path):
             rec = self.rec
@@ -170,8 +214,13 @@ def faultfs_class():
 # independent observers
 
 
+_OID = re.compile(r"^[0-9a-f]{32}(\.dir)?$")
+
+
 def store_bytes(path) -> dict:
-    return {o: b for o, (b, _m) in impl.walk_store(path).items()}
+    """{oid: bytes} of a store directory; stray files whose name is not an object id (temporary
+    leftovers like <2>/tmpXXXX, <2>/<rest>.tmp) are not objects"""
+    return {o: b for o, (b, _m) in impl.walk_store(path).items() if _OID.match(o)}
 
 
 def effective_store(path, cls) -> dict:
@@ -180,6 +229,8 @@ def effective_store(path, cls) -> dict:
     counts as ABSENT - status() re-hashes and removes it; base-class stores: existence only."""
     out = {}
     for o, (b, mode) in impl.walk_store(path).items():
+        if not _OID.match(o):
+            continue
         if cls == "local" and mode != 0o444 and not genuine(o, b):
             continue
         out[o] = b
@@ -279,6 +330,7 @@ class Scenario:
         self._plant(self.p_dst, case["dst"])
         self._plant_rot()
         self.src0 = store_bytes(self.p_src)
+        self.src_modes0 = {o: m for o, (_b, m) in impl.walk_store(self.p_src).items()}
         self.cache0 = store_bytes(self.p_cache) if self.has_cache else None
         self.dix = self.six = None
         if case.get("dix") or case.get("six"):
@@ -293,6 +345,7 @@ class Scenario:
                 self.dix = mk(case["dix"], "dest")
             if case.get("six"):
                 self.six = mk(case["six"], "src")
+        self._seed_index()
         self.dst_state = None
         if case.get("dst_state"):
             from dvc_data.hashfile.state import State
@@ -310,19 +363,39 @@ class Scenario:
             impl.plant(path, self.oid[t], self.bytes_of(t, v))
 
     def _plant_rot(self):
-        for t, hx_ in (self.case.get("dst_rot") or {}).items():
+        case = self.case
+        for t, hx_ in (case.get("dst_rot") or {}).items():
             impl.plant(self.p_dst, self.oid[t], bytes.fromhex(hx_), mode=0o644)
+        for t in case.get("dst_unprot") or []:
+            os.chmod(os.path.join(self.p_dst, self.oid[t][:2], self.oid[t][2:]), 0o644)
+        for t, name, hx_ in case.get("dst_junk") or []:
+            d = os.path.join(self.p_dst, self.oid[t][:2])
+            os.makedirs(d, exist_ok=True)
+            with open(os.path.join(d, name), "wb") as f:
+                f.write(bytes.fromhex(hx_))
+        for t in case.get("dst_dir_at") or []:
+            os.makedirs(os.path.join(self.p_dst, self.oid[t][:2], self.oid[t][2:], "inside"), exist_ok=True)
+
+    def _seed_index(self):
+        init = self.case.get("dix_init")
+        if init and self.dix is not None:
+            self.dix.update([self.oid[t] for t in init.get("dirs") or []], [self.oid[t] for t in init.get("files") or []])
 
     def reset_dest(self):
         # remove the objects, keep the fan-out directories (rmdir is slow; empty ones are invisible)
         for d in os.listdir(self.p_dst):
             dp = os.path.join(self.p_dst, d)
             for n in os.listdir(dp):
-                os.unlink(os.path.join(dp, n))
+                fp = os.path.join(dp, n)
+                if os.path.isdir(fp) and not os.path.islink(fp):
+                    impl.rm_rf(fp)
+                else:
+                    os.unlink(fp)
         self._plant(self.p_dst, self.case["dst"])
         self._plant_rot()
         if self.dix is not None:
             self.dix.clear()
+            self._seed_index()
 
     def close(self):
         for ix in (self.dix, self.six, self.dst_state):
@@ -357,16 +430,54 @@ class Scenario:
         rec = Recorder(self.p_dst, [self.oid[t] for t in rs.get("fails") or []], rs.get("crash"))
         rec.eperm = bool(self.case.get("eperm"))
         rec.partial = {self.oid[t] for t in rs.get("partial") or []}
+        rec.kind = case.get("fail_kind") or "eio"
+        rec.query_fault = bool(rs.get("query_fault"))
         ob["req"] = list(rs.get("req") or case["req"])
-        fs = faultfs_class()()
-        fs.rec = rec
+        if case.get("plain_dst"):
+            from dvc_objects.fs.local import LocalFileSystem
+
+            fs = LocalFileSystem()  # real links, no fault injection
+        else:
+            fs = faultfs_class()()
+            fs.rec = rec
         dcls = LocalHashFileDB if case["dst_cls"] == "local" else HashFileDB
-        dest = dcls(fs, self.p_dst, state=self.dst_state) if self.dst_state is not None else dcls(fs, self.p_dst)
+        cfg = {}
+        if self.dst_state is not None:
+            cfg["state"] = self.dst_state
+        if case.get("read_only_dst"):
+            cfg["read_only"] = True
+        dest = dcls(fs, self.p_dst, **cfg)
+        real_add = dest.add
+
+        def counting_add(*a, **kw):  # one dest.add call = one batch
+            rec.batch += 1
+            rec.batch_pos = 0
+            return real_add(*a, **kw)
+
+        dest.add = counting_add
+        kill = rs.get("kill_state")
+        real_save_many = None
+        if kill and self.dst_state is not None:
+            real_save_many = self.dst_state.save_many
+            calls = [0]
+
+            def killing_save_many(*a, **kw):
+                calls[0] += 1
+                if calls[0] == kill[1]:
+                    rec.aborted = True
+                    if kill[0] == "before":
+                        raise Abort
+                    real_save_many(*a, **kw)
+                    raise Abort
+                return real_save_many(*a, **kw)
+
+            self.dst_state.save_many = killing_save_many
         src = impl.make_odb(case["src_cls"], self.p_src)
         cache = impl.make_odb(case.get("cache_cls", "local"), self.p_cache) if self.has_cache else None
         labels = case.get("labels") or {}
-        obj_ids = {HashInfo("md5", self.oid[t], obj_name=labels[t]) if t in labels else HashInfo("md5", self.oid[t])
-                   for t in ob["req"]}
+        names = case.get("req_names") or {}
+        obj_ids = {HashInfo(names.get(t, "md5"), self.oid[t], obj_name=labels[t]) if t in labels
+                   else HashInfo(names.get(t, "md5"), self.oid[t]) for t in ob["req"]}
         ob["req_order"] = [h.value for h in obj_ids]
         seen = []
         dirorder = []
@@ -378,6 +489,8 @@ class Scenario:
             # runs exactly between the status phase and the uploads: a concurrent gc of the source
             seen.append(st)
             rec.phase = "upload"
+            if rs.get("raise_in_validate"):
+                raise RuntimeError("validate_status refuses")
             new = {h.value for h in st.new}
             for o in vanish:
                 sp = os.path.join(self.p_src, o[:2], o[2:])
@@ -394,7 +507,8 @@ class Scenario:
         T.find_tree_by_obj_id = recording
         try:
             try:
-                res = T.transfer(src, dest, obj_ids, jobs=1, verify=bool(case["verify"]),
+                res = T.transfer(src, dest, obj_ids, jobs=case.get("jobs", 1), verify=bool(case["verify"]),
+                                 hardlink=bool(case.get("hardlink")),
                                  shallow=bool(case["shallow"]), src_index=self.six,
                                  dest_index=self.dix, cache_odb=cache, validate_status=on_status)
                 ob["outcome"] = ("ok", {h.value for h in res.transferred}, {h.value for h in res.failed})
@@ -404,6 +518,8 @@ class Scenario:
                 ob["outcome"] = ("err", impl.err_code(exc), repr(exc)[:200])
         finally:
             T.find_tree_by_obj_id = orig
+            if real_save_many is not None:
+                del self.dst_state.save_many  # the instance attribute; the class method is back
             for o, (b, mode) in removed.items():  # the source is static across rounds
                 impl.plant(self.p_src, o, b, mode)
         ob["vanished"] = sorted(removed)
@@ -415,10 +531,12 @@ class Scenario:
         ob["crash"] = rec.calls if rec.aborted else None
         ob["events"] = rec.events
         ob["status_drops"] = rec.status_drops
+        ob["positions"] = rec.positions
         ob["snaps"] = rec.snaps
         ob["dirorder"] = dirorder
         ob["putorder"] = [e[1] for e in rec.events if e[0] in ("put", "partial")]
         ob["dst_after"] = store_bytes(self.p_dst)
+        ob["dst_after_eff"] = effective_store(self.p_dst, case["dst_cls"])
         ob["dix_after"] = index_items(self.dix)
         ob["six_after"] = index_items(self.six)
         ob["src_after"] = store_bytes(self.p_src)
@@ -578,6 +696,8 @@ def c04_preconditions(S, ob):
         for o, b in st.items():
             if is_dir(o) and (not genuine(o, b) or parse_listing(b) is None):
                 return "corrupt directory object in play"
+            if is_dir(o) and any(is_dir(f) for f in parse_listing(b)):
+                return "non-flat listing in play"
     if open_dirs(ob["dst_before"]):
         return "destination not closed at the start"
     req = {S.oid[t] for t in ob["req"]}
@@ -638,8 +758,10 @@ def judge_c04(S):
                 and oc[0] == "ok"):
             verify = bool(S.case["verify"])
 
+            blocked = {S.oid[t] for t in S.case.get("dst_dir_at") or []}  # a directory sits at the object's path
+
             def deliverable(o):
-                return o in S.src0 and not (verify and not genuine(o, S.src0[o]))
+                return o in S.src0 and o not in blocked and not (verify and not genuine(o, S.src0[o]))
 
             wanted = set()
             for t in ob["req"]:
@@ -670,6 +792,25 @@ def judge_c11(S):
         if S.cache0 is not None and ob["cache_after"] != S.cache0:
             problems.append(("C11:source-modified", f"round {ri}: the cache_odb store changed"))
         oc = ob["outcome"]
+        rs = ob["spec"]
+        if rs.get("raise_in_validate") and oc[0] != "err":
+            problems.append(("C11:validate-exception-swallowed",
+                             f"round {ri}: validate_status raised, transfer() returned {oc[0]}"))
+        if oc[0] == "err" and (ob["status"] is None or rs.get("raise_in_validate")) and \
+                ob["dst_after_eff"] != ob["dst_before"]:
+            problems.append(("C11:error-but-modified",
+                             f"round {ri}: transfer() raised {oc[2]} before any upload, yet the destination changed"))
+        if S.case.get("read_only_dst"):
+            q = {S.oid[t] for t in ob["req"]}
+            anything_new = any(o in S.src0 and o not in ob["dst_before"] for o in q)
+            if ob["dst_after"] != ob["dst_before_raw"]:
+                problems.append(("C11:readonly-modified", f"round {ri}: the read-only destination changed"))
+            if anything_new and oc[:2] != ("err", 1):
+                problems.append(("C11:readonly-not-refused",
+                                 f"round {ri}: read-only destination, new objects requested, outcome {oc[:2]}"))
+            if not anything_new and not (oc[0] == "ok" and not oc[1] and not oc[2]):
+                problems.append(("C11:readonly-not-refused",
+                                 f"round {ri}: read-only destination, nothing new, outcome {oc[:2]} instead of the empty result"))
         if oc[0] != "ok":
             continue
         transferred, failed = oc[1], oc[2]
@@ -804,6 +945,263 @@ def features(S):
         f.add("upload")
     nontrivial = uploads > 0 and bool(f & {"failure", "crash", "drop", "missing-both", "prepopulated"})
     return f, nontrivial
+
+
+# --------------------------------------------------------------------------------------
+# findings protocol + input dimensions
+
+# behaviours of the REAL code that violate C04/C11 on an input dimension outside the model, found by
+# the coverage audit and waiting for the lead's decision (fix / known finding).  Failures with one of
+# these signatures are collected in the evidence (coverage.pending_findings), not raised.
+PENDING_FINDINGS = {
+    "C11:transferred-but-absent:first-upload-FileExistsError-swallowed":
+        "dvc_objects.fs.generic.transfer ignores a FileExistsError raised by the FIRST upload of a batch "
+        "('already exists, skipping'): the object is absent, not failed, and is reported transferred",
+    "C04:open-directory:first-upload-FileExistsError-swallowed":
+        "same mechanism: the swallowed first upload is not counted as a failure, so the directory object is "
+        "uploaded although the file did not arrive",
+    "C04:not-withheld:first-upload-FileExistsError-swallowed":
+        "same mechanism, seen at the end of the round: directory object delivered without the listed file",
+    "C11:transferred-but-absent:directory-at-object-path-FileExistsError-swallowed":
+        "hardlink=True, a DIRECTORY sits at the object's destination path: os.link raises FileExistsError, "
+        "generic.transfer takes it for 'already there' (for every file in link mode): reported transferred, absent",
+    "C04:open-directory:directory-at-object-path-FileExistsError-swallowed":
+        "same mechanism: the directory object is delivered although the obstructed file did not arrive",
+    "C04:not-withheld:directory-at-object-path-FileExistsError-swallowed":
+        "same mechanism, end of round",
+    "C11:transferred-corrupt:hardlinked-protected-source-trusted-by-mode":
+        "hardlink=True, verify=True, LocalHashFileDB destination: the link shares the source's 0o444 mode, "
+        "LocalHashFileDB.check trusts it by mode and never re-hashes: a corrupt object passes verification",
+    "C04:open-directory:mixed-hash-names":
+        "a request naming some listed files with hash name md5-dos2unix (store hash_name md5): those HashInfos do "
+        "not equal the tree's md5 entries, the files are not bound to their directory and are uploaded AFTER the "
+        "directory object",
+    "C04:not-withheld:mixed-hash-names": "same mechanism: a failure of such a file leaves the directory delivered",
+    "C11:not-a-partition:mixed-hash-names":
+        "same request: failed ids are built with the store's hash name, so status.new - failed does not remove them",
+    "C11:transferred-but-absent:mixed-hash-names": "same mechanism: the failed id stays in transferred",
+}
+
+
+_SWALLOW = ("C04:open-directory", "C04:not-withheld", "C11:transferred-but-absent")
+
+
+def classify(S, problems):
+    """give failures that stem from a known mechanism on a dimension outside the model their own
+    stable signature (see PENDING_FINDINGS)"""
+    case = S.case
+    out = []
+    first_eexist = case.get("fail_kind") == "eexist" and any(
+        e[0] == "put" and not e[2] and pos == 1
+        for ob in S.rounds for e, (_b, pos) in zip([x for x in ob["events"] if x[0] in ("put", "partial")],
+                                                   ob.get("positions") or []))
+    for sig, what in problems:
+        if sig == "C11:transferred-but-absent:other" and (first_eexist or case.get("req_names") or (
+                case.get("dst_dir_at") and case.get("plain_dst") and case.get("hardlink"))):
+            sig = "C11:transferred-but-absent"  # the mechanism is known: it names the class instead of "other"
+        if first_eexist and sig in _SWALLOW:
+            sig += ":first-upload-FileExistsError-swallowed"
+        elif case.get("dst_dir_at") and case.get("plain_dst") and case.get("hardlink") and sig in _SWALLOW:
+            sig += ":directory-at-object-path-FileExistsError-swallowed"
+        elif case.get("req_names") and sig.startswith(("C04:", "C11:")):
+            sig += ":mixed-hash-names"
+        elif sig == "C11:transferred-corrupt" and case.get("plain_dst") and case.get("hardlink") \
+                and case["dst_cls"] == "local":
+            sig += ":hardlinked-protected-source-trusted-by-mode"
+        out.append((sig, what))
+    return out
+
+
+def report(ctx, problems, case):
+    """route oracle failures: pending findings are collected in the evidence, everything else is a
+    violation.  Returns the problems that were raised."""
+    raised = []
+    for sig, what in problems:
+        if sig in PENDING_FINDINGS:
+            lst = ctx.extra.setdefault("pending_findings", [])
+            for e in lst:
+                if e["signature"] == sig:
+                    e["count"] += 1
+                    break
+            else:
+                lst.append({"signature": sig, "description": PENDING_FINDINGS[sig], "what": what,
+                            "case": case, "count": 1})
+            ctx.count("pending-finding:" + sig)
+        else:
+            ctx.oracle_fail(sig, what, case)
+            raised.append((sig, what))
+    return raised
+
+
+NOTE_DIMS = {"chain": "stream:sharing-chain", "history": "stream:multi-round-history", "corpus": "stream:fixed-corpus"}
+
+
+def count_dims(ctx, dims):
+    dims = {NOTE_DIMS.get(k, k) for k in dims}
+    d = ctx.extra.setdefault("input_dimensions", {})
+    for k in sorted(set(dims)):
+        d[k] = d.get(k, 0) + 1
+
+
+def name_dims(relpaths):
+    import unicodedata
+
+    out = set()
+    rps = list(relpaths)
+    parts = [p for rp in rps for p in rp.split("/")]
+    for p in parts:
+        if "\\" in p:
+            out.add("name:backslash")
+        if " " in p:
+            out.add("name:space")
+        if p.startswith("."):
+            out.add("name:leading-dot")
+        if any("\u0400" <= c <= "\u04ff" for c in p):
+            out.add("name:cyrillic")
+        if any("\u3040" <= c <= "\u9fff" for c in p):
+            out.add("name:cjk")
+        if any(ord(c) >= 0x1F300 for c in p):
+            out.add("name:emoji")
+        if p.endswith(".dir"):
+            out.add("name:ends-with-.dir")
+        if len(p) == 1:
+            out.add("name:1-char")
+        if len(p) >= 200:
+            out.add("name:200-chars")
+        if any(ord(c) < 32 for c in p) or '"' in p:
+            out.add("name:json-escaped")
+    sp = set(parts)
+    if any(unicodedata.normalize("NFC", p) != p and unicodedata.normalize("NFC", p) in sp for p in sp):
+        out.add("name:non-NFC-next-to-composed-twin")
+    if any(a != b and a.lower() == b.lower() for a in sp for b in sp):
+        out.add("name:case-twins")
+    if any(a != b and b.startswith(a) for a in sp for b in sp if len(a) > 1):
+        out.add("name:prefix-siblings")
+    if any(rp.replace("\\", "/") == other for rp in rps for other in rps if rp != other):
+        out.add("name:slash-backslash-twins")
+    if any(rp.count("/") >= 2 for rp in rps):
+        out.add("shape:depth>=3")
+    return out
+
+
+def dimensions(S):
+    """input dimensions (tools/COVERAGE_AUDIT.md) a run scenario had"""
+    case = S.case
+    d = set()
+    req = set()
+    for ob in S.rounds:
+        req.update(ob["req"])
+    for t in req:
+        if is_dir(t) and t in case["dirs"]:
+            d |= name_dims([rp for rp, _ in case["dirs"][t]])
+            lst = case["dirs"][t]
+            if not lst:
+                d.add("shape:empty-listing-requested")
+                if len([x for x in req if is_dir(x)]) == 1:
+                    d.add("shape:empty-listing-alone")
+            if len(lst) == 1:
+                d.add("shape:one-file-directory")
+            if len({f for _, f in lst}) < len(lst):
+                d.add("shape:duplicate-content-in-one-directory")
+            if any(is_dir(f) for _, f in lst):
+                d.add("shape:non-flat-listing")
+            for u in req:
+                if is_dir(u) and u != t and u in case["dirs"] and lst and \
+                        {f for _, f in lst} == {f for _, f in case["dirs"][u]}:
+                    d.add("shape:directories-sharing-all-files")
+    if any(case["files"].get(t) == "" for t in case["files"]):
+        d.add("shape:zero-length-file")
+    if shared_files(case):
+        d.add("shape:file-shared-across-directories")
+    if case.get("labels"):
+        d.add("id:labelled-" + ("dir+file" if any(is_dir(t) for t in case["labels"]) and
+                                  any(not is_dir(t) for t in case["labels"]) else "some"))
+    if case.get("req_names"):
+        d.add("id:mixed-hash-names")
+    d.add("flag:jobs=%s" % case.get("jobs", 1))
+    d.add("flag:verify=%d,hardlink=%d%s" % (bool(case["verify"]), bool(case.get("hardlink")),
+                                            "(real links)" if case.get("plain_dst") and case.get("hardlink") else ""))
+    d.add("flag:shallow=%d,dest_index=%d" % (bool(case["shallow"]), bool(case["dix"])))
+    d.add("class:%s->%s" % (case["src_cls"], case["dst_cls"]))
+    for side, key in (("dest", "dix"), ("src", "six")):
+        if case.get(key):
+            d.add("index:%s=%s" % (side, "noop" if case[key] == "noop" else "real"))
+    d.add("cache_odb:" + ("none" if case.get("cache") is None else
+                          "all-dirs" if set(case["cache"]) >= set(case["dirs"]) else "some-dirs"))
+    if case.get("dst_state"):
+        d.add("state:destination-real")
+    if case.get("read_only_dst"):
+        d.add("store:read-only-destination")
+    if case.get("dst_rot"):
+        d.add("pre:corrupt-unprotected-copy")
+        if any(v == "" for v in case["dst_rot"].values()):
+            d.add("pre:empty-leftover(%s)" % case["dst_cls"])
+    if case.get("dst_unprot"):
+        d.add("pre:right-object-unprotected(%s)" % case["dst_cls"])
+    if any(v is not None for v in case["dst"].values()):
+        d.add("pre:corrupt-protected-copy")
+    if case.get("dst_junk"):
+        d.add("pre:temp-leftovers")
+    if case.get("dst_dir_at"):
+        d.add("pre:directory-at-object-path")
+    if case["dst"]:
+        d.add("pre:right-object-protected")
+    if case.get("dix_init"):
+        d.add("dest-index:lists-directory-without-files" if not case["dix_init"].get("files") else "dest-index:pre-seeded")
+    kind = case.get("fail_kind") or ("eperm" if case.get("eperm") else "eio")
+    first_faulty = None
+    for ri, ob in enumerate(S.rounds):
+        rs = ob["spec"]
+        if ob["dix_before"] == {} and case.get("dix") is True:
+            d.add("dest-index:empty")
+        if ob["dix_before"]:
+            if any(k not in ob["dst_before"] for k in ob["dix_before"]):
+                d.add("dest-index:stale")
+            if any((not v) and k in ob["dix_before"] for k, v in ob["dix_before"].items()) and \
+                    any(v and k not in ob["dst_before"] for k, v in ob["dix_before"].items()):
+                d.add("dest-index:files-of-an-absent-directory")
+        if rs.get("delete"):
+            d.add("stream:history-external-deletion")
+        if rs.get("query_fault"):
+            d.add("fault:existence-query(%s)" % case["dst_cls"])
+        if rs.get("raise_in_validate"):
+            d.add("flag:validate_status-raises")
+        if rs.get("kill_state"):
+            d.add("kill:state.save_many-" + rs["kill_state"][0])
+        elif ob["crash"] is not None:
+            d.add("kill:after-upload-attempt")
+        if rs.get("partial"):
+            d.add("fault:partial-upload")
+        if ob.get("vanished"):
+            d.add("fault:source-object-vanishes-after-status")
+        if ob.get("status_drops"):
+            d.add("pre:unvouched-copy-removed-by-status")
+        if rs.get("req"):
+            d.add("stream:per-round-request")
+        sizes = {}
+        for b, pos in ob.get("positions") or []:
+            sizes[b] = max(sizes.get(b, 0), pos)
+        attempts = [e for e in ob["events"] if e[0] in ("put", "partial")]
+        faulty = False
+        for e, (b, pos) in zip(attempts, ob.get("positions") or []):
+            if e[0] == "put" and e[2]:
+                continue
+            faulty = True
+            k = "enoent" if (e[1] in ob.get("vanished", []) or e[1] not in S.src0) else kind
+            if is_dir(e[1]):
+                where = "directory-object"
+            elif pos == 1:
+                where = "first-of-batch"
+            elif pos == sizes[b]:
+                where = "last-of-batch"
+            else:
+                where = "middle-of-batch"
+            d.add("fault:%s@%s" % (k, where))
+        if faulty and first_faulty is None:
+            first_faulty = ri
+        if faulty and ri > 0 and not rs.get("reset") and first_faulty == ri and ob["crash"] is None:
+            d.add("fault:only-on-retry")
+    return d
 
 
 # --------------------------------------------------------------------------------------
@@ -1014,6 +1412,9 @@ def gen_base(rng, prop):
         # protected (a concurrent writer's object); with a single writer it never is
         case["eperm"] = True
         notes.append("fail-kind:PermissionError")
+    case["jobs"] = rng.choice([None, 1, 1, 2, 4])
+    if rng.random() < 0.25:
+        case["hardlink"] = True  # through the fault-injecting file system this degenerates to copy
     if rng.random() < 0.4:
         # requested ids carry a descriptive label (HashInfo.obj_name), as DVC sets it
         toks = list(req) if rng.random() < 0.6 else [t for t in req if rng.random() < 0.5]
